@@ -223,6 +223,15 @@ def _child(d, argv, sim, out_fd):
     fac = SimPoolFactory(sched, faults=wf, task_hook=task_hook, width=sim.get('width'),
                          exception_factory=lambda i: OSError(errno.EIO, f'injected worker I/O failure in task {i}'))
     # ---- seams ------------------------------------------------------------
+    import datetime as _dt
+
+    class _SimDatetime(_dt.datetime):
+        # simulated wall clock: the provenance line in the output header must not depend on the real date
+        @classmethod
+        def now(cls, tz=None):
+            return _dt.datetime(2020, 1, 1) + _dt.timedelta(milliseconds=clock.ticks)
+    tm.datetime = _SimDatetime
+    sys.argv = ['bamtagmultiome.py'] + list(argv)      # the command line is recorded in the @PG header line
     tm.Pool = fac.Pool
     tm.sleep = clock.sleep
     tm.uuid = names
@@ -350,7 +359,7 @@ def run_lifetime(d, argv, sim, timeout=120):
     if not data:
         return {'exit': code, 'no_result': True}
     # scratch directory names are random: they must never reach an event log / digest
-    res = json.loads(re.sub(r'simv-[A-Za-z0-9_]{6,10}', 'simv-SCRATCH', data.decode()))
+    res = json.loads(re.sub(r'simv-[A-Za-z0-9_]{6,12}', 'simv-SCRATCH', data.decode()))
     if 'harness' in res:
         raise RuntimeError('harness failure in child: ' + res['harness'])
     res['exit'] = code
